@@ -622,6 +622,37 @@ func c05ErrPosGen(c *Ctx, idx int, local map[string]int64) {
 			}
 			local["errgen.eof-position-checked"]++
 		}
+		// no character is skipped: a trailing blank is one more WS token and
+		// nothing else, so it changes neither acceptance nor the offending
+		// token. (A last character that the parser's raw look-ahead loses
+		// shows up here: with the blank behind it, it is seen.)
+		var err2 error
+		if p, pv, stk := mon.Try(func() { _, err2 = influxql.ParseQuery(text + " ") }); p {
+			r.Violation("panic-in-parse", map[string]interface{}{"sub": "errgen", "idx": idx, "input": text + " ", "why": fmt.Sprint(pv), "stack": stk})
+			return
+		}
+		r.Eval(1)
+		if (err == nil) != (err2 == nil) {
+			r.Violation("last-character-skipped", map[string]interface{}{"sub": "errgen", "idx": idx, "input": text, "why": fmt.Sprintf("without a trailing blank: %v; with one: %v", err, err2)})
+			return
+		}
+		pe1, ok1 := err.(*influxql.ParseError)
+		pe2, ok2 := err2.(*influxql.ParseError)
+		// (where the grammar allows no blank, the blank itself is the offending
+		// token: nothing to compare then)
+		if ok1 && ok2 && (pe2.Found != "EOF" || pe2.Message != "") && !(pe2.Message == "" && strings.TrimSpace(pe2.Found) == "") && !c05Rewound(pe1) && !c05Rewound(pe2) {
+			same := pe1.Pos == pe2.Pos && (pe1.Message == "") == (pe2.Message == "")
+			if pe1.Message == "" && pe1.Found != pe2.Found {
+				same = false
+			}
+			if !same {
+				r.Violation("last-character-skipped", map[string]interface{}{"sub": "errgen", "idx": idx, "input": text, "why": fmt.Sprintf("without a trailing blank: %q; with one: %q", err.Error(), err2.Error())})
+				return
+			}
+			local["errgen.trailing-blank-same-error"]++
+		} else if err == nil {
+			local["errgen.trailing-blank-both-accepted"]++
+		}
 		return
 	}
 	bad := rg.Pick("?", "#", "@", "~", "`")
@@ -659,6 +690,13 @@ func c05ErrPosGen(c *Ctx, idx int, local map[string]int64) {
 		return
 	}
 	local["errgen.checked"]++
+}
+
+// c05Rewound recognises the one semantic error that is reported at a token
+// found by rewinding the ring two slots (a continuous query without GROUP BY
+// time): which token that is depends on how many tokens follow, by design.
+func c05Rewound(pe *influxql.ParseError) bool {
+	return len(pe.Expected) == 1 && pe.Expected[0] == "GROUP BY time(...)"
 }
 
 func c05ErrPosAll(c *Ctx) {
